@@ -4,11 +4,11 @@ Import ListNotations.
 Require Import V.Lib.RunCases V.C18.Nested V.C18.Spec V.C18.Dec V.C18.SortLemmas V.C18.Forest V.C18.Paths
         V.C18.Fill V.C18.Restore V.C18.Pieces V.C18.Inv V.C18.Extract V.C18.Queue V.C18.Steps.
 
-Lemma extp_in g0 g cs ext d :
+Lemma extp_in g0 g cs (ext : list (okey * graph)) d :
   Forall2 (fun c pe => fst pe = path0 g0 c /\ In c (fids (g_roots g))) cs ext -> In d cs -> In d (fids (g_roots g)).
-Proof. induction 1 as [|c pe cs' ext' [_ H] _ IH]; intros [E|Hd]; [subst; exact H | auto]. Qed.
+Proof. induction 1 as [|c pe cs' ext' [_ H] _ IH]; intro Hd; [contradiction|]. destruct Hd as [E|Hd]; [subst; exact H | auto]. Qed.
 
-Lemma extp_keys g0 g cs ext :
+Lemma extp_keys g0 g cs (ext : list (okey * graph)) :
   Forall2 (fun c pe => fst pe = path0 g0 c /\ In c (fids (g_roots g))) cs ext -> map fst ext = map (path0 g0) cs.
 Proof. induction 1 as [|c pe cs' ext' [H _] _ IH]; simpl; [reflexivity | rewrite H, IH; reflexivity]. Qed.
 
@@ -37,7 +37,7 @@ Proof.
   { intros d Hd Ht. apply (NoDup_fids_disj R t (near_roots nears) d NDR Ht). rewrite fids_app. apply in_app_iff. left.
     eapply fillF_ids_incl; [exact HF|]. eapply extp_in; eassumption. }
   unfold near_add. rewrite Er. simpl firstn.
-  constructor; simpl.
+  constructor; cbn [g_level g_roots g_objs g_edges].
   - exact I1.
   - exact I2.
   - exists (R ++ [t]). split.
@@ -46,7 +46,7 @@ Proof.
     + rewrite <- app_assoc. exact HP.
   - rewrite <- I4. unfold near_objs. simpl. rewrite <- !app_assoc. apply Permutation_app_head.
     rewrite (app_assoc (ext_objs ext)). rewrite (Permutation_app_swap_app (g_objs ng)). rewrite <- app_assoc. reflexivity.
-  - split.
+  - split; cbn [g_level g_roots g_objs g_edges].
     + rewrite fids_app. simpl. rewrite app_nil_r. apply Permutation_app; [exact I5|]. rewrite Pn, Er. simpl. rewrite app_nil_r. reflexivity.
     + intros e He. rewrite nonlife_app in He. apply in_app_iff in He as [He|He].
       * destruct (I5e e He). split; apply in_app_iff; left; assumption.
@@ -54,7 +54,7 @@ Proof.
   - exact I6.
   - exact I7'.
   - rewrite <- I8. unfold near_edges. simpl. rewrite nonlife_app, <- !app_assoc. apply Permutation_app_head.
-    rewrite (app_assoc (ext_edges ext)). rewrite (Permutation_app_swap_app (nonlife (g_edges ng))). rewrite <- app_assoc. reflexivity.
+    apply Permutation_app_swap_app.
   - exact I9.
   - eapply Forall2_impl; [|exact I10]. cbv beta. intros c pe [H1 H2]. split; [exact H1|].
     rewrite fids_app. apply in_app_iff. left. exact H2.
@@ -130,17 +130,16 @@ Proof.
     - apply in_app_iff. left. apply in_app_iff. left. eapply Permutation_in; [symmetry; exact Pn | exact Hn]. }
   assert (PF : Permutation (fids (upd_f c (add_kids (g_roots ng)) (g_roots g))) (fids (g_roots g) ++ fids (g_roots ng))).
   { apply fids_add_perm; assumption. }
-  constructor; simpl.
+  constructor; cbn [g_level g_roots g_objs g_edges].
   - exact I1.
   - split; [exact NDcs | simpl in I2l; lia].
   - exists R. split; [|exact HP]. apply fillF_plug.
-    + change (hdom (holes_of cs ext)). rewrite hdom_combine by (rewrite eroots_length; simpl in I2l; lia). exact Hc.
-    + change (forall d, In d (hdom (holes_of cs ext)) -> ~ In d (fids (g_roots ng))).
-      rewrite hdom_combine by (rewrite eroots_length; simpl in I2l; lia).
+    + unfold holes_of. rewrite hdom_combine by (rewrite eroots_length; simpl in I2l; lia). exact Hc.
+    + unfold holes_of. rewrite hdom_combine by (rewrite eroots_length; simpl in I2l; lia).
       intros d Hd. apply Hdis. eapply extp_in; eassumption.
     + exact HF.
   - rewrite <- I4. unfold ext_objs. simpl. rewrite <- !app_assoc. reflexivity.
-  - split.
+  - split; unfold inject_at; cbn [g_level g_roots g_objs g_edges].
     + rewrite PF. apply Permutation_app; assumption.
     + intros e He. rewrite nonlife_app in He. apply in_app_iff in He as [He|He].
       * destruct (I5e e He). split; apply in_app_iff; left; assumption.
@@ -164,6 +163,18 @@ Proof.
     eapply IH; [|exact F' | exact E]. apply inv_inject_one with (p := p); assumption.
 Qed.
 
+Lemma inject_facts_aux g0 g (all : list (okey * graph)) :
+  (forall c, In c (fids (g_roots g)) -> lookup (idmap g) (path0 g0 c) = Some c) ->
+  forall cs (ext : list (okey * graph)),
+    Forall2 (fun c pe => fst pe = path0 g0 c /\ In c (fids (g_roots g))) cs ext ->
+    (forall pe, In pe ext -> assoc_last (fst pe) all = Some (snd pe)) ->
+    Forall2 (fun c pe => lookup (idmap g) (fst pe) = Some c /\ assoc_last (fst pe) all = Some (snd pe)) cs ext.
+Proof.
+  intros Hlk cs ext FE. induction FE as [|c pe cs' ext' [Hp Hc] _ IH]; intro Hin; constructor.
+  - split; [|apply Hin; left; reflexivity]. rewrite Hp. apply Hlk. exact Hc.
+  - apply IH. intros; apply Hin; right; assumption.
+Qed.
+
 Lemma inject_facts g0 g ext xs nears cs : good g0 -> inv g0 g ext xs nears cs ->
   Forall2 (fun c pe => lookup (idmap g) (fst pe) = Some c /\ assoc_last (fst pe) ext = Some (snd pe)) cs ext.
 Proof.
@@ -172,11 +183,7 @@ Proof.
   { rewrite (extp_keys _ _ _ _ FE). apply NoDup_map_inj_in; [apply (iv_cs _ _ _ _ _ _ I)|].
     intros x y Hx Hy. apply (path0_inj g0 G0); apply (inv_obj_sub g0 g _ _ _ _ I); apply (inv_obj_in g0 g _ _ _ _ I);
       eapply extp_in; eassumption. }
-  assert (Hin : forall pe, In pe ext -> assoc_last (fst pe) ext = Some (snd pe)).
-  { intros [p ng] Hpe. apply assoc_last_unique; assumption. }
-  clear NDk. revert Hin. generalize ext at 2 4 as all. intros all Hin.
-  induction FE as [|c pe cs' ext' [Hp Hc] _ IH]; constructor.
-  - split; [|apply Hin; left; reflexivity]. rewrite Hp. apply (inv_lookup g0 g _ _ _ _ G0 I).
-    apply (inv_obj_in g0 g _ _ _ _ I). exact Hc.
-  - apply IH. intros; apply Hin; right; assumption.
+  apply (inject_facts_aux g0 g ext); [| exact FE |].
+  - intros c Hc. apply (inv_lookup g0 g _ _ _ _ G0 I). apply (inv_obj_in g0 g _ _ _ _ I). exact Hc.
+  - intros [p ng] Hpe. apply assoc_last_unique; assumption.
 Qed.
